@@ -9,6 +9,9 @@ LEVEL_NOTE = ('Trusted base: the MCNP reference semantics in vt/mcnp_ref.py and 
               'TatSu 5.24.0 with the harness-side _is_protocol shim, NumPy. '
               'Holds only for the executions observed.')
 
+REGION = ('runtime monitoring: offline region-agreement checker over recorded '
+          'conversions vs an executable reference model')
+
 CHECKS = {
     'C02': ('exploration',
             'Runs the real converter on generated one-surface decks for every '
@@ -18,14 +21,31 @@ CHECKS = {
             'file with the sign of the MCNP card equation. Held = no disagreeing '
             'judged probe on the decks explored; not a proof over all parameter '
             'vectors.',
-            'runtime monitoring: offline region-agreement checker over recorded '
-            'conversions vs an executable reference model', '3 C02'),
+            REGION, '3 C02'),
+    'C01': ('exploration',
+            'Runs the real converter on generated universe-free decks covering '
+            'every Boolean rewriting path (complements of cells and expressions, '
+            'union helper planes, largest-intersection extraction, pruning, '
+            'flattening) and compares per probe point the set of non-virtual '
+            'volumes holding it with the set of MCNP cells (importance non-zero) '
+            'whose region holds it; also every non-virtual VOLU number must be a '
+            'live cell number. Held on the decks and points explored.',
+            REGION, '3 C01'),
+    'C03': ('exploration',
+            'Same oracle on one-macrobody decks with cells -b, +b, +b.k, -b.k for '
+            'every facet of every body kind/parameterisation, against inside '
+            'predicates and MCNP facet numbering written from the manual.',
+            REGION, '3 C03'),
+    'C04': ('exploration',
+            'Same oracle on decks where one object is moved through every attach '
+            'point (TR number on the card, TRCL by number/inline 3,12,13/starred, '
+            'implicit 1000*cell+surface) x rotation class x TR spelling; the '
+            'reference moves the untransformed object by main = O + B^T aux.',
+            REGION + '; rotation-completion contracts on the real normalize_* '
+            'functions', '3 C04'),
 }
 
 PENDING = {}
-
-REGION = ('runtime monitoring: offline region-agreement checker over recorded '
-          'conversions vs an executable reference model')
 
 
 def main():
